@@ -1,0 +1,113 @@
+//go:build verif
+
+// Package verifhook provides named observation points for external
+// verification harnesses. This file is only built with the "verif"
+// build tag.
+//
+// Behaviour is controlled by the environment (read once at start-up):
+//
+//	VERIF_CRASH_AT=n      kill the process (SIGKILL) when the n-th hook is reached
+//	VERIF_CRASH_NAME=s    only count hooks with this name for VERIF_CRASH_AT
+//	VERIF_HOOK_TRACE=f    append "n name" lines for every hook reached to file f
+//	VERIF_HOOK_DELAY=a=us,b=us  sleep that many microseconds at the named points
+//	                      ("*" matches every point; a value of 0 means Gosched)
+//
+// A harness in the same process can also install a callback with [Set].
+package verifhook
+
+import (
+	"fmt"
+	"os"
+	"runtime"
+	"strconv"
+	"strings"
+	"sync"
+	"time"
+)
+
+var (
+	mu        sync.Mutex
+	count     int
+	crashAt   int
+	crashName string
+	trace     *os.File
+	delays    map[string]time.Duration
+	callback  func(name string)
+)
+
+func init() {
+	if s := os.Getenv("VERIF_CRASH_AT"); s != "" {
+		crashAt, _ = strconv.Atoi(s)
+	}
+	crashName = os.Getenv("VERIF_CRASH_NAME")
+	if s := os.Getenv("VERIF_HOOK_TRACE"); s != "" {
+		f, err := os.OpenFile(s, os.O_WRONLY|os.O_CREATE|os.O_APPEND, 0o666)
+		if err == nil {
+			trace = f
+		}
+	}
+	if s := os.Getenv("VERIF_HOOK_DELAY"); s != "" {
+		delays = make(map[string]time.Duration)
+		for _, kv := range strings.Split(s, ",") {
+			k, v, ok := strings.Cut(kv, "=")
+			if !ok {
+				continue
+			}
+			us, err := strconv.Atoi(v)
+			if err != nil {
+				continue
+			}
+			delays[k] = time.Duration(us) * time.Microsecond
+		}
+	}
+}
+
+// Set installs a callback invoked (outside the package lock) at every hook.
+// It returns the previous callback.
+func Set(f func(name string)) func(name string) {
+	mu.Lock()
+	defer mu.Unlock()
+	old := callback
+	callback = f
+	return old
+}
+
+// At marks a named point in the code.
+func At(name string) {
+	mu.Lock()
+	counted := crashName == "" || crashName == name
+	if counted {
+		count++
+	}
+	n := count
+	if trace != nil {
+		// One write call per line: the line is complete even if the
+		// process is killed right after.
+		fmt.Fprintf(trace, "%d %s\n", n, name)
+	}
+	die := counted && crashAt > 0 && n == crashAt
+	cb := callback
+	d, hasDelay := delays[name]
+	if !hasDelay {
+		d, hasDelay = delays["*"]
+	}
+	mu.Unlock()
+
+	if die {
+		if p, err := os.FindProcess(os.Getpid()); err == nil {
+			p.Kill()
+		}
+		// SIGKILL delivery is asynchronous: do not run past this point.
+		select {}
+	}
+	if cb != nil {
+		cb(name)
+	}
+	if hasDelay {
+		if d == 0 {
+			runtime.Gosched()
+		} else {
+			time.Sleep(d)
+		}
+	}
+}
